@@ -121,6 +121,135 @@ def norm_val(v, be):
     return ("bits", repr(v))
 
 
+def uncovered_reads(fn, pay, minlen, helper_of=None, _depth=0):
+    """Forward walk of a parser with one fact - the lower bound on len(<pay>) - through its statements.  Yields (k, lo, node, fn) for every
+    constant-index read `<pay>[k]`: lo is None when the read lies inside the established length, the established bound otherwise.
+    Length tests understood: `if len(p) < N: return/raise`, `if len(p) >= N: ...`, conditional expressions and `and` chains with the same
+    tests; reads under a handler for IndexError are skipped (the code deals with the short payload itself)."""
+    out = []
+
+    def is_len(e):
+        return isinstance(e, ast.Call) and isinstance(e.func, ast.Name) and e.func.id == "len" and len(e.args) == 1 \
+            and isinstance(e.args[0], ast.Name) and e.args[0].id == pay
+
+    def refine(test, lo):
+        """(lo when the test is true, lo when it is false)"""
+        if isinstance(test, ast.UnaryOp) and isinstance(test.op, ast.Not):
+            t_, f_ = refine(test.operand, lo)
+            return f_, t_
+        if isinstance(test, ast.BoolOp) and isinstance(test.op, ast.And):
+            cur = lo
+            for v in test.values:
+                cur = refine(v, cur)[0]
+            return cur, lo
+        if isinstance(test, ast.Compare) and len(test.ops) == 1:
+            l_, op, r_ = test.left, test.ops[0], test.comparators[0]
+            flip = {ast.Lt: ast.Gt, ast.Gt: ast.Lt, ast.LtE: ast.GtE, ast.GtE: ast.LtE, ast.Eq: ast.Eq, ast.NotEq: ast.NotEq}
+            if is_len(r_) and type(op) in flip:
+                l_, r_, op = r_, l_, flip[type(op)]()
+            if is_len(l_) and isinstance(r_, ast.Constant) and isinstance(r_.value, int) and not isinstance(r_.value, bool):
+                n = r_.value
+                if isinstance(op, ast.Lt):
+                    return lo, max(lo, n)
+                if isinstance(op, ast.LtE):
+                    return lo, max(lo, n + 1)
+                if isinstance(op, ast.GtE):
+                    return max(lo, n), lo
+                if isinstance(op, ast.Gt):
+                    return max(lo, n + 1), lo
+                if isinstance(op, ast.Eq):
+                    return max(lo, n), lo
+        return lo, lo
+
+    def expr(e, lo):
+        if e is None:
+            return
+        if isinstance(e, ast.IfExp):
+            expr(e.test, lo)
+            t_, f_ = refine(e.test, lo)
+            expr(e.body, t_)
+            expr(e.orelse, f_)
+            return
+        if isinstance(e, ast.BoolOp):
+            cur = lo
+            for v in e.values:
+                expr(v, cur)
+                cur = refine(v, cur)[0] if isinstance(e.op, ast.And) else refine(v, cur)[1]
+            return
+        if isinstance(e, ast.Subscript) and isinstance(e.value, ast.Name) and e.value.id == pay and isinstance(e.ctx, ast.Load):
+            k = e.slice
+            if isinstance(k, ast.UnaryOp) and isinstance(k.op, ast.USub) and isinstance(k.operand, ast.Constant) and isinstance(k.operand.value, int):
+                need = k.operand.value
+                out.append((-need, None if need <= lo else lo, e, fn))
+            elif isinstance(k, ast.Constant) and isinstance(k.value, int) and not isinstance(k.value, bool):
+                out.append((k.value, None if k.value < lo else lo, e, fn))
+        if isinstance(e, ast.Call) and helper_of is not None and _depth < 3 and isinstance(e.func, ast.Attribute) and isinstance(e.func.value, ast.Name) \
+                and e.func.value.id == fn.params[0]:
+            h = helper_of(e.func.attr)
+            if h is not None:
+                for i, a in enumerate(e.args):
+                    if isinstance(a, ast.Name) and a.id == pay and i + 1 < len(h.params):
+                        out.extend(uncovered_reads(h, h.params[i + 1], lo, helper_of, _depth + 1))
+        if isinstance(e, (ast.Lambda, ast.ListComp, ast.SetComp, ast.DictComp, ast.GeneratorExp)):
+            pass
+        for c in ast.iter_child_nodes(e):
+            if isinstance(c, ast.expr):
+                expr(c, lo)
+            elif isinstance(c, ast.keyword):
+                expr(c.value, lo)
+            elif isinstance(c, ast.comprehension):
+                expr(c.iter, lo)
+                for i_ in c.ifs:
+                    expr(i_, lo)
+
+    def terminates(body):
+        return bool(body) and isinstance(body[-1], (ast.Return, ast.Raise, ast.Continue, ast.Break))
+
+    def block(stmts, lo):
+        for st in stmts:
+            if isinstance(st, ast.If):
+                expr(st.test, lo)
+                t_, f_ = refine(st.test, lo)
+                a_ = block(st.body, t_)
+                b_ = block(st.orelse, f_)
+                outs = ([] if terminates(st.body) else [a_]) + ([] if terminates(st.orelse) else [b_])
+                lo = min(outs) if outs else lo
+            elif isinstance(st, (ast.For, ast.AsyncFor, ast.While)):
+                expr(getattr(st, "iter", None) or getattr(st, "test", None), lo)
+                block(st.body, lo)
+                block(st.orelse, lo)
+            elif isinstance(st, ast.Try):
+                catches = any(h.type is None or any(isinstance(n_, (ast.Name, ast.Attribute)) and (getattr(n_, "id", None) or getattr(n_, "attr", None))
+                                                    in ("IndexError", "LookupError", "Exception", "BaseException") for n_ in ast.walk(h.type))
+                              for h in st.handlers)
+                if not catches:
+                    block(st.body, lo)
+                for h in st.handlers:
+                    block(h.body, lo)
+                block(st.orelse, lo)
+                block(st.finalbody, lo)
+            elif isinstance(st, (ast.With, ast.AsyncWith)):
+                for it in st.items:
+                    expr(it.context_expr, lo)
+                lo = block(st.body, lo)
+            elif isinstance(st, ast.Assert):
+                expr(st.test, lo)
+                lo = refine(st.test, lo)[0]
+            elif isinstance(st, (ast.FunctionDef, ast.AsyncFunctionDef, ast.ClassDef)):
+                continue
+            else:
+                for c in ast.iter_child_nodes(st):
+                    if isinstance(c, ast.expr):
+                        expr(c, lo)
+                # a rebinding of the payload name ends what is known about it
+                for t in ast.walk(st):
+                    if isinstance(t, ast.Name) and t.id == pay and isinstance(t.ctx, ast.Store):
+                        return 10 ** 9
+        return lo
+    block(fn.node.body, minlen)
+    return out
+
+
 def run(ctx):
     prog = ctx.prog
     ctx.explanation = ("abstract interpretation of StateResponse._parse over an abstract payload built from the vendor 0xC0 layout "
@@ -185,8 +314,59 @@ def run(ctx):
                  " and ".join(show(a_)[:40] for a_ in atoms(early[0][0])[-2:]) + ")" if early else "(the _parse call is conditional)") +
                  ": a legacy short response is dropped and refresh() exposes defaults instead of the reported state"))
 
+    # ---- every fixed-offset read of the payload lies inside the length established on its path.  The shortest state response is MINLEN
+    # bytes: a read of payload[k] with k >= MINLEN that no length test covers raises IndexError for a legal short response, the response is
+    # dropped and none of the reported state reaches the attributes (whatever the read was for - a new field included)
+    n_reads = 0
+    sr_cls = prog.cls(SR)
+
+    def helper_of(name):
+        m_ = prog.lookup_method(sr_cls, name)
+        return m_ if m_ is not None and m_.qual != fn.qual else None
+    from ..paths import int_lower_bounds as _ilb
+    from ..facts import cases as _cases
+    _sums = {}
+
+    def term_level_bound(where_, sub_):
+        """lower bound on len(payload) from the path condition (terms: named constants folded, `n = len(payload)` seen through) of the
+        statement that holds the read; None when the statement is not found"""
+        if where_.qual not in _sums:
+            _sums[where_.qual] = summarize(prog, where_)
+        ws = _sums[where_.qual]
+        best = None
+        for sn, st_ in ws.ta.env_at.items():
+            if isinstance(sn, ast.stmt) and not isinstance(sn, (ast.If, ast.For, ast.While, ast.Try, ast.With, ast.FunctionDef, ast.AsyncFunctionDef)) \
+                    and any(x is sub_ for x in ast.walk(sn)):
+                try:
+                    cs_ = _cases(st_.pc) or [atoms(st_.pc)]
+                except ValueError:
+                    cs_ = [atoms(st_.pc)]
+                lbs = []
+                for facts in cs_:
+                    b_ = 0
+                    for t_, v_ in _ilb(facts).items():
+                        if call_is(t_, "len") and t_[2] and unview(strip(t_[2][0]))[0] == "param":
+                            b_ = max(b_, v_)
+                    lbs.append(b_)
+                best = min(lbs) if lbs else 0
+        return best
+    for k_, lo_, sub_, where_ in uncovered_reads(fn, pay_p, MINLEN, helper_of):
+        n_reads += 1
+        if lo_ is None:
+            continue
+        tb = term_level_bound(where_, sub_)
+        need = (k_ + 1) if k_ >= 0 else -k_
+        if tb is None or tb >= need:
+            continue            # (covered by a test the syntactic walk does not read, or not locatable: not reported)
+        ctx.ob("C11.b", where_.qual, False, "", func=where_.qual, file=where_.module.rel, node=sub_, construct=norm(sub_),
+               fail=f"`{norm(sub_)}` is read where only len(payload) >= {lo_} is established: a legal {lo_}-byte state response raises IndexError and is dropped "
+                    "(absent optional bytes must be reported as unknown, not read)")
+    ctx.count("fixed_offset_reads", n_reads)
+    ctx.ob("C11.b", fn.qual, True, f"{n_reads} fixed-offset payload reads, each inside the length established on its path (16-byte minimum, raised by the length tests)",
+           func=fn.qual, file=file)
+
     # an attribute _parse leaves alone on some path still holds what __init__ stored
-    untouched = {("attr", ("param", self_p), a): v for a, v in defaults.items()}
+    untouched ={("attr", ("param", self_p), a): v for a, v in defaults.items()}
 
     def leaf(tm, be):
         if tm[0] == "ref":
@@ -377,6 +557,32 @@ def run(ctx):
     uss = summarize(prog, us)
     sp, rp = us.params[0], us.params[1]
     ac = prog.cls(AC)
+
+    # the dispatch on the response class: a branch for a class placed behind the branch of one of its base classes never runs - responses of
+    # the subclass are applied by the base-class branch as if they were full reports (fields they do not carry overwrite the state)
+    def classes_of(test):
+        if isinstance(test, ast.Call) and isinstance(test.func, ast.Name) and test.func.id == "isinstance" and len(test.args) == 2 \
+                and isinstance(test.args[0], ast.Name) and test.args[0].id == rp:
+            elts = test.args[1].elts if isinstance(test.args[1], ast.Tuple) else [test.args[1]]
+            out_ = [prog.resolve_expr(us.module, e_, us.cls) for e_ in elts]
+            return None if any(o_ is None or not hasattr(o_, "methods") for o_ in out_) else out_
+        return None
+    for top in us.node.body:
+        earlier = []
+        cur_ = top
+        while isinstance(cur_, ast.If):
+            ks = classes_of(cur_.test)
+            if ks is None:
+                break
+            dead = [k_ for k_ in ks if any(b_ in prog.mro(k_) for b_ in earlier)]
+            ctx.count("dispatch_branches")
+            if dead and len(dead) == len(ks):
+                base_ = next(b_ for b_ in earlier if b_ in prog.mro(dead[0]))
+                ctx.ob("C11.d", us.qual, False, "", func=us.qual, file=us.module.rel, node=cur_.test, construct=norm(cur_.test),
+                       fail=f"the branch for {dead[0].name} is placed behind the branch of its base class {base_.name} and never runs: a {dead[0].name} "
+                            f"is applied as a full {base_.name} (fields it does not carry overwrite the exposed state)")
+            earlier += ks
+            cur_ = cur_.orelse[0] if len(cur_.orelse) == 1 else None
 
     def res_attr(n):
         return ("attr", ("param", rp), n)
